@@ -5,6 +5,7 @@ mod c03;
 mod c04;
 mod c05;
 mod c06;
+mod c07;
 mod c08;
 mod consts;
 mod gad;
@@ -79,6 +80,7 @@ fn main() {
         "c05" => c05::main(rest),
         "consts" => consts::main(rest),
         "c06" => c06::main(rest),
+        "c07" => c07::main(rest),
         "c08" => c08::main(rest),
         "c09" => c09::main(rest),
         "c10" => c10::main(rest),
